@@ -22,6 +22,11 @@ Inductive case :=
 Definition diag_of (m : nat) (D : list obs) : list Q :=
   map (fun j => nthQ (Avec m D (unit m j)) j) (seq 0 m).
 
+(* norm-wise comparison: every component within rtol * (1 + max |b|) *)
+Definition maxabs (b : list Q) : Q := fold_left (fun acc v => if Qltb acc (Qabs v) then Qabs v else acc) b 0.
+Definition close_norm (rtol : Q) (a b : list Q) : bool :=
+  let tol := rtol * (1 + maxabs b) in all2 (close tol) a b.
+
 Definition band_close (a b : list (list Q)) : bool := all2 (all2 (close_rel rtol9)) a b.
 Definition band_eq (a b : list (list Q)) : bool := all2 (all2 Qeq_bool) a b.
 
@@ -34,11 +39,11 @@ Definition run_case (c : case) : Z :=
       let D := fit_obs gb k xs ys ws in
       let band_ok := band_close alpha (band_assemble gb k xs ws)
                      && band_eq (band_assemble gb k xs ws) (band_of k m (normal_matrix m D)) in
-      match fit_dense m D with
+      match fit_fast m D with
       | None => 1%Z       (* the generator promised a well-supported problem: the model must solve it *)
       | Some c0 =>
-          let s_ok := Z.eqb status 0 && all2 (close_rel rtol7) coeff c0
-                      && all2 (close_rel rtol7) yfit (yfit_of gb k c0 xs) in
+          let s_ok := Z.eqb status 0 && close_norm rtol7 coeff c0
+                      && close_norm rtol7 yfit (yfit_of gb k c0 xs) in
           ((if band_ok then 0 else 1) + (if s_ok then 0 else 2))%Z
       end
   | CChol ab L n x b =>
@@ -60,10 +65,10 @@ Definition diagnose (c : case) : list bool :=
       let D := fit_obs gb k xs ys ws in
       [band_close alpha (band_assemble gb k xs ws);
        band_eq (band_assemble gb k xs ws) (band_of k m (normal_matrix m D));
-       match fit_dense m D with Some _ => true | None => false end;
+       match fit_fast m D with Some _ => true | None => false end;
        Z.eqb status 0;
-       match fit_dense m D with Some c0 => all2 (close_rel rtol7) coeff c0 | None => false end;
-       match fit_dense m D with Some c0 => all2 (close_rel rtol7) yfit (yfit_of gb k c0 xs) | None => false end]
+       match fit_fast m D with Some c0 => close_norm rtol7 coeff c0 | None => false end;
+       match fit_fast m D with Some c0 => close_norm rtol7 yfit (yfit_of gb k c0 xs) | None => false end]
   | CChol ab L n x b => [chol_ok rtol9 ab L n; solve_ok rtol7 ab n x b]
   | CStatus bk bmask k xs ws mininf status newmask =>
       let gb := select bmask bk in
